@@ -103,6 +103,10 @@ def sweep_case(ctx, n, fam, values, exact, comp) -> None:
 
 
 def run(ctx) -> None:
+    if ctx.tier == "thorough" and ctx.shard == ctx.nshards - 1:
+        # the repository's own tests as one more workload for the contracts (vmon/contracts.py)
+        from ..contracts_suite import run_repo_tests
+        run_repo_tests(ctx, ['incomplete_cooperative/tests/test_bounds.py'], 'compute')
     rng = ctx.rng
     quick = ctx.tier == "quick"
     # 1. exhaustive parts: all K for n = 3, 4 and the all-edges walk, both computers
@@ -143,4 +147,8 @@ def run(ctx) -> None:
 
 
 def replay(ctx, case) -> None:
+    if case.get("kind") == "repo-tests":
+        from ..contracts_suite import run_repo_tests
+        run_repo_tests(ctx, case["files"], case["contracts"])
+        return
     run_case(ctx, case)
